@@ -81,6 +81,9 @@ STAGE_ANCHORS = {
     'boolean::divide_segment::divide_segment', 'boolean::connect_edges::connect_edges', 'boolean::connect_edges::order_events',
     'boolean::connect_edges::get_next_pos', 'boolean::connect_edges::mark_as_processed',
     'boolean::connect_edges::Contour::<F>::initialize_from_context',
+    'boolean::segment_intersection::intersection', 'boolean::segment_intersection::intersection_impl',
+    'boolean::segment_intersection::get_intersection_bounding_box', 'boolean::segment_intersection::constrain_to_bounding_box',
+    'boolean::helper::less_if', 'boolean::helper::less_if_inversed',
 }
 
 NONE = ('agg', 'adt', 'None', (), (), 'std::option::Option')
@@ -839,9 +842,10 @@ class Explorer:
     ORD_T = 'std::cmp::Ordering'
     STD_MODELS = re.compile(
         r'^(std::option::Option::<T>::(map_or_else|filter|or_else|unwrap_or_else|or|and|zip|unwrap_or|xor)|'
-        r'std::bool::<impl bool>::(then|then_some)|'
+        r'(?:std|core)::bool::<impl bool>::(then|then_some)|'
         r'std::cmp::Ordering::(is_gt|is_lt|is_ge|is_le|is_eq|is_ne|reverse|then|then_with)|'
-        r'std::cmp::(PartialOrd|Ord)::(partial_cmp|cmp)|<f(32|64) as std::cmp::PartialOrd>::partial_cmp)$')
+        r'std::cmp::(PartialOrd|Ord)::(partial_cmp|cmp)|<f(32|64) as std::cmp::PartialOrd>::partial_cmp|'
+        r'std::array::<impl \[T; N\]>::map)$')
     SCALAR_TYS = ('F', 'T', 'f32', 'f64', 'i32', 'i64', 'u32', 'u64', 'usize', 'isize', 'u8')
 
     @staticmethod
@@ -976,6 +980,22 @@ class Explorer:
                                    'term': t, 'exp': t.get('exp', False), 'depth': fr.evdepth, 'in': fr.body.id, 'inlined': True,
                                    'expanded': True, 'pure': True, 'ret': ('c', ('zst', 'expanded'))})
 
+        # ---- [a, b, c].map(f): element by element
+        if name.endswith('>::map') and name.startswith('std::array::'):
+            arr = strip_upd(args[0])
+            cal = self._callable(args[1]) if len(args) == 2 else None
+            if not (arr[0] == 'agg' and arr[1] == 'array') or cal is None or len(arr[4]) > 8:
+                return False
+            note()
+            elems = list(arr[4])
+
+            def step(st2, acc, i):
+                if i == len(elems):
+                    done(st2, ('agg', 'array', None, (), tuple(acc), 'array'))
+                    return
+                self._apply(st2, fr, b, t, cal, (elems[i],), lambda s3, r: step(s3, acc + [r], i + 1))
+            step(st, [], 0)
+            return True
         # ---- Ordering methods
         if name.startswith('std::cmp::Ordering::'):
             if meth in ('then', 'then_with'):
@@ -1016,7 +1036,7 @@ class Explorer:
                 done(s_, self._some(r) if meth == 'partial_cmp' else r)
             return True
         # ---- bool::then / then_some
-        if name.startswith('std::bool::'):
+        if name.startswith('std::bool::') or name.startswith('core::bool::'):
             if meth == 'then' and self._callable(args[1]) is None:
                 return False
             note()
@@ -1362,9 +1382,9 @@ def is_straight_line(body):
 
 IMPLICIT_BRANCH = re.compile(
     r'^(std::option::Option::<T>::(map|map_or|map_or_else|and_then|is_some_and|is_none_or|filter|or_else|unwrap_or_else|or|and|zip|unwrap_or|xor)|'
-    r'std::bool::<impl bool>::(then|then_some)|std::cmp::Ordering::(is_gt|is_lt|is_ge|is_le|is_eq|is_ne|reverse|then|then_with)|'
+    r'(?:std|core)::bool::<impl bool>::(then|then_some)|std::cmp::Ordering::(is_gt|is_lt|is_ge|is_le|is_eq|is_ne|reverse|then|then_with)|'
     r'std::cmp::(PartialOrd|Ord)::(partial_cmp|cmp)|<f(32|64) as std::cmp::PartialOrd>::partial_cmp|'
-    r'<std::option::Option<T> as std::ops::Try>::branch)$')
+    r'<std::option::Option<T> as std::ops::Try>::branch|std::array::<impl \[T; N\]>::map)$')
 
 
 def strip_upd(v):
